@@ -59,12 +59,15 @@ Eqv(l, r) == <<Iff(l, r)>>                 \* clause of a simplification step
 
 \* seed pools
 FS1 == {vp, Neg(vq)} \cup (IF Level >= 2 THEN {Conj(vp, vq)} ELSE {}) \cup (IF Level >= 3 THEN {Iff(vp, vq), Eqa(ca, cb), Imp(vp, vr), TrueC} ELSE {})
-FS2 == {<<Neg(vp), Conj(vq, vr)>>} \cup (IF Level >= 2 THEN {<<vp, vq>>} ELSE {})
-       \cup (IF Level >= 3 THEN {<<vp, vp>>, <<Disj(vp, vq), Neg(vq)>>, <<Iff(vp, vq), vr>>, <<Eqa(ca, cb), F1(pP, ca)>>, <<vp, FalseC>>} ELSE {})
+FS2 == {<<Neg(vp), Conj(vq, vr)>>} \cup (IF Level >= 2 THEN {<<vp, vq>>, <<Disj(vp, vq), Imp(vq, vr)>>} ELSE {})
+       \cup (IF Level >= 3 THEN {<<vp, vp>>, <<Conj(vp, vr), Disj(vq, vr)>>, <<Disj(vp, vq), Neg(vq)>>, <<Iff(vp, vq), vr>>, <<Eqa(ca, cb), F1(pP, ca)>>, <<vp, FalseC>>} ELSE {})
 FS3 == {<<Neg(vp), vq, Conj(vp, vr)>>} \cup (IF Level >= 2 THEN {<<vp, vq, vr>>} ELSE {})
        \cup (IF Level >= 3 THEN {<<vp, vq, vp>>, <<Iff(vp, vq), Neg(vr), vq>>, <<F1(pP, ca), vq, Eqa(ca, cb)>>} ELSE {})
-FSN == {<<Neg(vp), Disj(vq, vr), vr>>} \cup (IF Level >= 2 THEN {<<vp, vq>>, <<vp, vq, vr>>} ELSE {})
-       \cup (IF Level >= 3 THEN {<<vp, vq, vr, vs>>, <<vp, vp, vq>>, <<Conj(vp, vq), vr, Neg(vr)>>} ELSE {})
+\* n-ary lists: a literal / conjunct may itself be a disjunction, conjunction, implication or negated disjunction, in first, middle and
+\* last position (a compound LAST item merges syntactically with the enclosing right-nested disjunction / conjunction)
+FSN == {<<Neg(vp), Disj(vq, vr), vr>>, <<Conj(vp, vq), Imp(vq, vr), Disj(vp, vr)>>}
+       \cup (IF Level >= 2 THEN {<<vp, vq>>, <<vp, vq, vr>>, <<vr, Disj(vp, vq)>>, <<Disj(vp, vq), vr, Conj(vq, vr)>>} ELSE {})
+       \cup (IF Level >= 3 THEN {<<vp, vq, vr, vs>>, <<Neg(Disj(vp, vq)), Imp(vp, vr)>>, <<vp, vp, vq>>, <<Conj(vp, vq), vr, Neg(vr)>>} ELSE {})
 
 \* ------------------------------------------------------------------ schemas: clausification / tautologies (no premise)
 R_false == { I("verit_false", <<>>, <<Neg(FalseC)>>) }
@@ -111,6 +114,9 @@ R_not_ite2 == { I("verit_not_ite2", <<PS(Neg(IteB(s)))>>, <<Neg(s[1]), Neg(s[2])
 R_contraction == { I("verit_contraction", <<PS(OrN(<<vp, vq, vp>>))>>, <<vp, vq>>),
                    I("verit_contraction", <<PS(OrN(<<vp, vp>>))>>, <<vp>>),
                    I("verit_contraction", <<PS(OrN(<<Neg(vp), vq, vq, Neg(vp), vr>>))>>, <<Neg(vp), vq, vr>>) }
+                 \cup (IF Level >= 2 THEN { I("verit_contraction", <<PS(OrN(<<Conj(vp, vq), vr, Conj(vp, vq)>>))>>, <<Conj(vp, vq), vr>>),
+                                            I("verit_contraction", <<PS(OrN(<<Disj(vp, vq), vr, Disj(vp, vq)>>))>>, <<Disj(vp, vq), vr>>),
+                                            I("verit_contraction", <<PS(OrN(<<vr, Imp(vp, vq), vr, Imp(vp, vq)>>))>>, <<vr, Imp(vp, vq)>>) } ELSE {})
 
 \* ------------------------------------------------------------------ schemas: resolution (args = clause, clause sizes of the premises)
 RX(sz) == [NoX EXCEPT !.sizes = sz]
@@ -131,6 +137,20 @@ R_th_resolution ==
     IX("verit_th_resolution", <<PS(Disj(F1(pP, ca), Eqa(ca, cb))), PS(Neg(F1(pP, ca)))>>, <<Eqa(ca, cb)>>, RX(<<2, 1>>)),
     IX("verit_th_resolution", <<PS(Disj(vp, vq)), PS(Disj(vr, vs))>>, <<vp, vq>>, RX(<<2, 2>>)),
     IX("verit_th_resolution", <<PS(Neg(Neg(vp))), PS(Neg(vp))>>, <<>>, RX(<<1, 1>>)) } ELSE {})
+
+\* resolution on COMPOUND literals: the pivot L (a disjunction, conjunction, negated disjunction, implication) stands at every position of
+\* the first clause (first / middle / LAST), its negation at every position of the second; the other literals are atoms and compound formulas
+Ins(s, k, x) == [j \in 1..(Len(s) + 1) |-> IF j < k THEN s[j] ELSE IF j = k THEN x ELSE s[j - 1]]
+RECURSIVE Dedup(_)
+Dedup(s) == IF Len(s) = 0 THEN <<>>
+            ELSE LET r == Dedup(SubSeq(s, 1, Len(s) - 1)) IN IF \E j \in 1..Len(r) : r[j] = s[Len(s)] THEN r ELSE Append(r, s[Len(s)])
+ResPivots == {Disj(vp, vq), Neg(Disj(vp, vq))} \cup (IF Level >= 2 THEN {Conj(vp, vq), Imp(vp, vq)} ELSE {}) \cup (IF Level >= 3 THEN {vp, Neg(vp)} ELSE {})
+ResOthers1 == IF Level = 1 THEN {<<vr>>} ELSE IF Level = 2 THEN {<<vr, Disj(vs, vr)>>} ELSE {<<vr>>, <<vr, Disj(vs, vr)>>, <<Conj(vr, vs), vr>>}
+ResOthers2 == IF Level = 1 THEN {<<>>, <<Imp(vr, vs)>>} ELSE IF Level = 2 THEN {<<Imp(vr, vs)>>} ELSE {<<>>, <<Imp(vr, vs)>>, <<vs, Disj(vr, vs)>>}
+R_resolution_compound ==
+  UNION { UNION { UNION { UNION { { IX("verit_th_resolution", <<PS(OrN(Ins(o1, i, L))), PS(OrN(Ins(o2, j, Neg(L))))>>, Dedup(o1 \o o2),
+                                       RX(<<Len(o1) + 1, Len(o2) + 1>>))
+                                    : j \in 1..(Len(o2) + 1) } : i \in 1..(Len(o1) + 1) } : o2 \in ResOthers2 } : o1 \in ResOthers1 } : L \in ResPivots }
 
 \* ------------------------------------------------------------------ schemas: equality and congruence
 R_eq_reflexive == { I("verit_eq_reflexive", <<>>, <<Eqa(ca, ca)>>), I("verit_eq_reflexive", <<>>, <<Eqa(F1(ff, ca), F1(ff, ca))>>),
@@ -348,7 +368,7 @@ Schemas ==
   \cup R_equiv_pos1 \cup R_equiv_pos2 \cup R_equiv_neg1 \cup R_equiv_neg2 \cup R_xor_pos1 \cup R_xor_pos2 \cup R_xor_neg1 \cup R_xor_neg2
   \cup R_ite_pos1 \cup R_ite_pos2 \cup R_ite_neg1 \cup R_ite_neg2
   \cup R_not_or \cup R_not_and \cup R_and \cup R_or \cup R_implies \cup R_not_implies1 \cup R_not_implies2 \cup R_equiv1 \cup R_equiv2
-  \cup R_not_equiv1 \cup R_not_equiv2 \cup R_ite1 \cup R_ite2 \cup R_not_ite1 \cup R_not_ite2 \cup R_contraction \cup R_th_resolution
+  \cup R_not_equiv1 \cup R_not_equiv2 \cup R_ite1 \cup R_ite2 \cup R_not_ite1 \cup R_not_ite2 \cup R_contraction \cup R_th_resolution \cup R_resolution_compound
   \cup R_eq_reflexive \cup R_eq_transitive \cup R_eq_congruent \cup R_eq_congruent_pred \cup R_trans \cup R_cong \cup R_subproof
   \cup R_not_simplify \cup R_and_simplify \cup R_or_simplify \cup R_implies_simplify \cup R_equiv_simplify \cup R_bool_simplify
   \cup R_ite_simplify \cup R_ite_intro \cup R_eq_simplify \cup R_ac_simp \cup R_connective_def
